@@ -119,7 +119,7 @@ struct Adapter {
   virtual void thread_end(int tid) {}
 };
 
-struct Opts { bool trace = false, race = false, weak = false, aba = false; int W = 16; std::string strategy = "random"; long n = 100; uint64_t seed = 1; int pb = 2; int pct_depth = 3; long max_steps = 200000; bool quiet = false; int solo_tid = 0; long solo_after = -1; long solo_budget = 0; int spin = 64; };
+struct Opts { bool trace = false, race = false, weak = false, aba = false; int W = 16; std::string strategy = "random"; long n = 100; uint64_t seed = 1; int pb = 2; int pct_depth = 3; long max_steps = 200000; bool quiet = false; int maxfound = 1; int solo_tid = 0; long solo_after = -1; long solo_budget = 0; int spin = 64; };
 
 struct ExecOut { int status = 0; std::string detail; std::vector<int> sched; std::vector<uint32_t> enabled; std::vector<uint64_t> choices; std::vector<long> tsteps; long steps = 0; };
 
@@ -231,6 +231,18 @@ struct DfsSched : xv::Scheduler {  // follows a prefix, then non-preemptive cont
   }
 };
 
+struct OpSched : xv::Scheduler {  // operations run one at a time (no preemption inside an operation), random order
+  uint64_t s; explicit OpSched(uint64_t seed) : s(seed * 0x9E3779B97F4A7C15ull + 99) {}
+  uint64_t next() { s ^= s << 13; s ^= s >> 7; s ^= s << 17; return s; }
+  int pick(long, int cur, uint32_t en) override {
+    if (cur > 0 && (en & (1u << cur)) && !xv::at_boundary(cur)) return cur;
+    int cnt = __builtin_popcount(en); int k = (int)(next() % cnt);
+    for (int i = 1; i < 32; i++) if (en & (1u << i)) { if (k-- == 0) return i; }
+    return 0;
+  }
+  uint64_t choice(uint64_t n) override { return n ? next() % n : 0; }
+};
+
 inline int count_preemptions(const std::vector<int>& s, const std::vector<uint32_t>& en) {
   int p = 0; for (size_t i = 1; i < s.size(); i++) if (s[i] != s[i - 1] && (en[i] & (1u << s[i - 1]))) p++; return p;
 }
@@ -249,6 +261,7 @@ inline int main_driver(int argc, char** argv, std::function<Adapter*()> mk) {
     else if (a == "--strategy") o.strategy = nxt(); else if (a == "--n") o.n = atol(nxt().c_str()); else if (a == "--seed") o.seed = strtoull(nxt().c_str(), 0, 10);
     else if (a == "--pb") o.pb = atoi(nxt().c_str()); else if (a == "--depth") o.pct_depth = atoi(nxt().c_str()); else if (a == "--max-steps") o.max_steps = atol(nxt().c_str());
     else if (a == "--spin") o.spin = atoi(nxt().c_str());
+    else if (a == "--maxfound") o.maxfound = atoi(nxt().c_str());
     else if (a == "--quiet") o.quiet = true;
   }
   int nthreads = (int)c.prog.size();
@@ -262,7 +275,7 @@ inline int main_driver(int argc, char** argv, std::function<Adapter*()> mk) {
   }
   if (cmd == "explore") {
     Shared* sh = (Shared*)mmap(nullptr, sizeof(Shared), PROT_READ | PROT_WRITE, MAP_SHARED | MAP_ANONYMOUS, -1, 0);
-    long execs = 0, timeouts = 0, total_steps = 0, stale = 0; std::set<std::string> distinct;
+    long execs = 0, timeouts = 0, total_steps = 0, stale = 0; std::set<std::string> distinct; std::set<std::string> found_kinds;
     auto report = [&](const char* how) {
       std::cout << "EXPLORED strategy=" << how << " executions=" << execs << " distinct_schedules=" << distinct.size() << " steps=" << total_steps << " timeouts=" << timeouts << " stale_reads=" << stale << "\n";
     };
@@ -273,12 +286,25 @@ inline int main_driver(int argc, char** argv, std::function<Adapter*()> mk) {
       if (sh->status == -2) { timeouts++; return false; }
       if (sh->status != 0) {
         std::vector<int> sc(sh->sched, sh->sched + sh->nsched); std::vector<uint64_t> ch(sh->choices, sh->choices + sh->nchoices);
+        std::string norm; for (const char* p = sh->detail; *p; ++p) norm += (*p >= '0' && *p <= '9') ? '#' : *p;
+        norm = std::to_string(sh->status) + norm.substr(0, 60);
+        if (!found_kinds.insert(norm).second) return false;   // same kind of finding already reported: keep exploring
         std::cout << "FOUND status=" << sh->status << " detail=" << sh->detail << "\n";
         std::cout << "CASE-BEGIN\n" << case_text(c, &sc, &ch) << "CASE-END\n";
-        return true;
+        return (int)found_kinds.size() >= o.maxfound;
       }
       return false;
     };
+    if (o.strategy == "opseq") {
+      for (long k = 0; k < o.n; k++) {
+        uint64_t sd = o.seed * 1000003ull + (uint64_t)k;
+        Opts o2 = o; o2.seed = sd;
+        run_child(mk, c, o2, [&]() -> xv::Scheduler* { return new OpSched(sd); }, sh);
+        if (handle()) { report("opseq"); return 1; }
+      }
+      report("opseq");
+      return found_kinds.empty() ? 0 : 1;
+    }
     if (o.strategy == "random" || o.strategy == "pct") {
       for (long k = 0; k < o.n; k++) {
         uint64_t sd = o.seed * 1000003ull + (uint64_t)k;
@@ -289,7 +315,7 @@ inline int main_driver(int argc, char** argv, std::function<Adapter*()> mk) {
         if (handle()) { report(o.strategy.c_str()); return 1; }
       }
       report(o.strategy.c_str());
-      return 0;
+      return found_kinds.empty() ? 0 : 1;
     }
     if (o.strategy == "prefix") {  // "thread A runs k steps, then B to completion, then the rest" for all A != B, k
       for (int a = 1; a <= nthreads; a++) for (int b = 1; b <= nthreads; b++) if (a != b || nthreads == 1) {
@@ -300,7 +326,7 @@ inline int main_driver(int argc, char** argv, std::function<Adapter*()> mk) {
         }
       }
       report("prefix");
-      return 0;
+      return found_kinds.empty() ? 0 : 1;
     }
     if (o.strategy == "dfs") {  // preemption-bounded DFS, budget o.n executions
       std::vector<std::vector<int>> stack; stack.push_back({});
@@ -324,7 +350,7 @@ inline int main_driver(int argc, char** argv, std::function<Adapter*()> mk) {
       }
       std::cout << "DFS-FRONTIER " << stack.size() << (stack.empty() ? " exhaustive" : " truncated") << "\n";
       report("dfs");
-      return 0;
+      return found_kinds.empty() ? 0 : 1;
     }
   }
   fprintf(stderr, "unknown command\n");
